@@ -59,8 +59,10 @@ type c06Case struct {
 
 type stopAfterPacer struct{ n uint64 }
 
-func (p stopAfterPacer) Pace(_ time.Duration, hits uint64) (time.Duration, bool) { return 0, hits >= p.n }
-func (p stopAfterPacer) Rate(time.Duration) float64                            { return 0 }
+func (p stopAfterPacer) Pace(_ time.Duration, hits uint64) (time.Duration, bool) {
+	return 0, hits >= p.n
+}
+func (p stopAfterPacer) Rate(time.Duration) float64 { return 0 }
 
 type c06Body struct {
 	mu      sync.Mutex
@@ -265,7 +267,14 @@ func runC06(c c06Case) error {
 		if !bytes.Equal(first.Body, ex.Body) || first.ContentLength != int64(len(ex.Body)) {
 			return fmt.Errorf("%s: transport saw a body of %d bytes (ContentLength %d), target has %d", what, len(first.Body), first.ContentLength, len(ex.Body))
 		}
+		ownAttack := []string(nil)
 		for _, kv := range ex.Headers {
+			if kv.K == "X-Vegeta-Attack" {
+				ownAttack = kv.V
+			}
+			if kv.K == "X-Vegeta-Seq" || (kv.K == "X-Vegeta-Attack" && c.Name != "") {
+				continue // replaced by the attack's own values, checked below
+			}
 			got, ok := first.Header[kv.K]
 			if !ok || strings.Join(got, "\x00") != strings.Join(kv.V, "\x00") || len(got) != len(kv.V) {
 				return fmt.Errorf("%s: transport saw header %q = %q (present=%v), target has %q; all: %v", what, kv.K, got, ok, kv.V, first.Header)
@@ -277,7 +286,7 @@ func runC06(c c06Case) error {
 		if got := first.Header["X-Vegeta-Seq"]; len(got) != 1 || got[0] != strconv.FormatUint(res.Seq, 10) {
 			return fmt.Errorf("%s: X-Vegeta-Seq header %q does not match the result's seq %d", what, got, res.Seq)
 		}
-		if got := first.Header["X-Vegeta-Attack"]; (c.Name == "" && len(got) != 0) || (c.Name != "" && (len(got) != 1 || got[0] != c.Name)) {
+		if got := first.Header["X-Vegeta-Attack"]; (c.Name == "" && strings.Join(got, "\x00") != strings.Join(ownAttack, "\x00")) || (c.Name != "" && (len(got) != 1 || got[0] != c.Name)) {
 			return fmt.Errorf("%s: X-Vegeta-Attack header %q for attack name %q", what, got, c.Name)
 		}
 		if chunked := len(first.TE) == 1 && first.TE[0] == "chunked"; chunked != c.Chunked || (len(first.TE) > 0 && !chunked) {
@@ -368,14 +377,15 @@ func c06Headers(t *rapid.T, l string, arbitraryCase bool) []c06KV {
 	for i := 0; i < n; i++ {
 		var k string
 		if arbitraryCase {
-			k = rapid.OneOf(rapid.SampledFrom([]string{"Content-Type", "content-type", "X-Account-ID", "x-lower", "SOAPAction", "Host", "host", "X-Dup", "x-dup", "ACCEPT"}),
+			// (targets replayed from an earlier run's captured requests carry the attack's own two headers)
+			k = rapid.OneOf(rapid.SampledFrom([]string{"Content-Type", "content-type", "X-Account-ID", "x-lower", "SOAPAction", "Host", "host", "X-Dup", "x-dup", "ACCEPT", "X-Vegeta-Seq", "X-Vegeta-Attack"}),
 				rapid.StringMatching(`[A-Za-z][A-Za-z0-9-]{0,10}`)).Draw(t, fmt.Sprintf("%s.k%d", l, i))
 		} else {
 			k = http.CanonicalHeaderKey(rapid.OneOf(rapid.SampledFrom([]string{"Content-Type", "Set-Cookie", "X-Request-Id", "Date", "Server"}),
 				rapid.StringMatching(`[A-Za-z][A-Za-z0-9-]{0,10}`)).Draw(t, fmt.Sprintf("%s.k%d", l, i)))
 		}
 		lk := strings.ToLower(k)
-		if used[k] || lk == "x-vegeta-seq" || lk == "x-vegeta-attack" || lk == "location" || lk == "authorization" || lk == "referer" || lk == "content-length" || lk == "transfer-encoding" {
+		if used[k] || ((lk == "x-vegeta-seq" || lk == "x-vegeta-attack") && k != http.CanonicalHeaderKey(k)) || (!arbitraryCase && strings.HasPrefix(lk, "x-vegeta-")) || lk == "location" || lk == "authorization" || lk == "referer" || lk == "content-length" || lk == "transfer-encoding" {
 			continue
 		}
 		used[k] = true
